@@ -523,6 +523,9 @@ def main(argv=None):
                 'skipped_ops': tot['skipped_ops'], 'known_findings_seen': tot['known'],
                 'stopped_on_budget': stopped_early, 'workers': a.workers,
                 'exhaustive': False,
+                'process_history': 'worlds run in batches of %d, each batch in a fresh process: a world meets the library state '
+                                   'left by the earlier worlds of its batch (violations that need such a history are replayed '
+                                   'and minimised with it)' % batch,
                 'time_split_s': {'generate': round(tot['gen_s'], 1), 'execute': round(tot['exec_s'], 1)},
             },
             'assumptions': getattr(profile, 'ASSUMPTIONS', []),
